@@ -97,4 +97,91 @@ def ssaOk : List Stmt → Bool
       (declNames ss).all (fun m => m != n && !mentionsE m v)) && ssaOk ss
   | _ :: _ => false
 
+/-! ### Side conditions of `kernel_meets_spec_defs_partial` (Bool versions of `PrefixDisjoint`, `PrefixReads`) -/
+
+def isSymE : Expr → Bool
+  | .sym .. => true
+  | _ => false
+
+/-- the defining expressions of a list of `VariableDecl`s -/
+def declExprs : List Stmt → List Expr
+  | [] => []
+  | .vdecl _ _ v :: ss => v :: declExprs ss
+  | _ :: ss => declExprs ss
+
+/-- **Every `sv_`/`fw` temporary is defined from symbols the definition sections establish, from
+    earlier temporaries, or from names the loop never writes**: the symbols written by the definition
+    sections (`dnames`), by the `fw` declarations and by the intermediates are pairwise disjoint, none is
+    a loop integer or `A`; no defining expression (and no non-symbol `fw` expression) mentions `A`,
+    `ic`, a dof loop index or an `fw` temporary. With `ssaOk i0`, `fwDeclsOk fw`, `fwLinkedB`. -/
+def prefixOkB (dnames : List String) (fw i0 : List Stmt) (fwes : List Expr) : Bool :=
+  let fwn := declNames fw
+  let i0n := declNames i0
+  let ints := "iq" :: "ic" :: dofNames
+  decide dnames.Nodup &&
+  dnames.all (fun n => !fwn.contains n && !i0n.contains n) &&
+  fwn.all (fun n => !i0n.contains n) &&
+  (dnames ++ fwn ++ i0n).all (fun n => !ints.contains n && n != aName) &&
+  (declExprs i0 ++ declExprs fw ++ fwes.filter (fun e => !isSymE e)).all (fun e =>
+    !mentionsE aName e && ("ic" :: dofNames).all (fun m => !mentionsE m e) &&
+    fwn.all (fun m => !mentionsE m e))
+
+/-! ### Side condition of `genBlock_diagonal_spec` -/
+
+/-- one block of a `diagonal` group: two non-tensor-factorised argument tables with as many dofs as
+    the (common) blockmap length, the first one's blockmap inside the one extent of `A` -/
+def diagonalBlock (n0 : Nat) (aShape : List Nat) (b : BlockData) : Bool :=
+  match b.args with
+  | [a0, a1] => a0.table.factors.isNone && a1.table.factors.isNone && a1.table.ndofs == n0 &&
+      coversB [a0] [n0] aShape
+  | _ => false
+
+/-- **The shape of group `genBlock_diagonal_spec` covers**: `part = 'diagonal'`, rank 2 with equal
+    block dimensions, `A` of rank 1, no sum factorisation. -/
+def diagonalGroup (g : GroupDesc) : Bool :=
+  g.diagonal && g.rule.factors.isNone &&
+  (match g.bmLens with
+   | [n0, n1] => n0 == n1 && g.blocks.all (diagonalBlock n0 g.aShape)
+   | _ => false)
+
+/-- the two block maps of every block coincide (`blockmap[0] == blockmap[1]`, the guard
+    `generate_dofblock_partition` applies for `diagonal`): same offset and block size -/
+def coincidentMaps (g : GroupDesc) : Bool :=
+  g.blocks.all (fun b => match b.args with
+    | [a0, a1] => a0.table.offset == a1.table.offset && a0.table.blockSize == a1.table.blockSize &&
+        a0.table.ndofs == a1.table.ndofs
+    | _ => false)
+
+/-! ### Side condition of `genBlock_tensor_spec` -/
+
+/-- dimensions of the factor tables of an argument -/
+def tfDims (a : ArgDesc) : List Nat := (a.table.factors.getD []).map (·.2)
+
+/-- the loop symbols `name0 … name(D-1)` -/
+def famSymsB (name : String) (D : Nat) : List String := (List.range D).map (fun i => s!"{name}{i}")
+
+/-- **The shape of group `genBlock_tensor_spec` covers** (Bool mirror of its hypotheses): full tensor,
+    rule with `D ≥ 2` tensor factors, rank 1 or 2, every argument table with `D` factor tables whose
+    dimensions agree across the blocks of the group and multiply to `ndofs`, `A` covers the blockmap,
+    no factor table is `A`, usable loop names, no `fw` expression mentions `A` or a loop symbol. -/
+def tensorGroupB (g : GroupDesc) (st : GenState) : Bool :=
+  !g.diagonal &&
+  (match g.rule.factors, g.blocks with
+   | some ms, b0 :: _ =>
+     let D := ms.length
+     let dims := b0.args.map tfDims
+     let fam := (dofNames.map (fun nm => famSymsB nm D)).flatten
+     decide (2 ≤ D) && (g.rank == 1 || g.rank == 2) && dims.flatten.all (fun d => decide (1 ≤ d)) &&
+     g.blocks.all (fun b =>
+       b.args.map tfDims == dims &&
+       b.args.all (fun a => (match a.table.factors with | some fs => fs.length == D | none => false) &&
+         a.table.ndofs == (tfDims a).foldr (· * ·) 1 &&
+         (a.table.factors.getD []).all (fun f => f.1 != aName)) &&
+       coversB b.args g.bmLens g.aShape) &&
+     decide (famSymsB "j" D ++ famSymsB "i" D).Nodup &&
+     (famSymsB "iq" D).all (fun s => !(famSymsB "j" D ++ famSymsB "i" D).contains s) &&
+     !(famSymsB "iq" D).contains aName && !fam.contains aName &&
+     (fwExprs g st g.blocks).all (fun fw => !mentionsE aName fw && fam.all (fun n => !mentionsE n fw))
+   | _, _ => false)
+
 end Ffcx.Codegen
